@@ -16,6 +16,15 @@ use serde::{Deserialize, Serialize};
 pub struct Src;
 /// Location tag of the receiving side.
 pub struct Dst;
+/// Cluster tags of the simulator-driven flows (see `tests`).
+pub struct TagA;
+pub struct TagB;
+
+// Simulator-driven monitors. `stageleft_runtime`-gated so that the staged copy of this crate (compiled
+// into every simulator dylib) does not contain them; they hold no `q!` code.
+#[cfg(stageleft_runtime)]
+#[cfg(test)]
+mod tests;
 
 // ------------------------------------------------------------------------------------------------
 // payload types (nested from i64, String, Option, Vec, tuple, enum, struct)
